@@ -25,7 +25,7 @@ Inductive op :=
 (* compute_line_hash: block_hash ^ linenum on 64-bit two's complement = Z.lxor on Z for int64 operands *)
 Definition LH (h l : Z) : Z := Z.lxor h l.
 
-Definition entry := (Z * Z)%type.                      (* (nhits, total_time) *)
+Notation entry := (Z * Z)%type (only parsing).          (* (nhits, total_time) *)
 Definition snapshot := list (Z * list (Z * Z * Z)).    (* label -> [(line, hits, time)], sorted by label *)
 
 Record cstate := mkcs {
